@@ -663,6 +663,7 @@ func (pc *PartitionContext) removeNode(nodeID string) ([]*objects.Allocation, []
 		return nil, nil
 	}
 
+	verifGate("removeNode.afterList", nodeID)
 	// unreserve all the apps that were reserved on the node.
 	// The node is not reachable anymore unless you have the pointer.
 	for _, r := range node.GetReservations() {
@@ -877,6 +878,7 @@ func (pc *PartitionContext) tryPlaceholderAllocate() *objects.AllocationResult {
 // NOTE: this is a lock free call. It must NOT be called holding the PartitionContext lock.
 func (pc *PartitionContext) allocate(result *objects.AllocationResult) *objects.AllocationResult {
 	// find the app make sure it still exists
+	verifGate("partition.allocate.entry", result.Request.GetAllocationKey())
 	appID := result.Request.GetApplicationID()
 	app := pc.getApplication(appID)
 	if app == nil {
